@@ -511,7 +511,9 @@ func genC05(g *gen) {
 			shs = append(shs, r4)
 		}
 	}
-	scripts := []string{"Nd", "rNd", "nnxNd", "nrnnfNd", "rnnnxNd", "cncncnd", "rcncncnd", "nnrnnrxN", "nsnd", "Cd", "nLd", "rCdsn"}
+	// (a direction setter restarts the walk also when the direction does not change: `nnfn…`, `rnnrn…`)
+	scripts := []string{"Nd", "rNd", "nnxNd", "nrnnfNd", "rnnnxNd", "cncncnd", "rcncncnd", "nnrnnrxN", "nsnd", "Cd", "nLd", "rCdsn",
+		"nnfcnNd", "rnnrcnNd", "nfnfncNd", "rnrnrncN"}
 	for _, sh := range shs {
 		for _, ord := range orders {
 			// as built
